@@ -349,23 +349,18 @@ Definition layer_names (l : layer B) : list name :=
   match l with LObj fs _ _ => map fst fs | LOmit om _ => om end.
 Definition all_names (cores : list (layer B)) : list name := flat_map layer_names cores.
 
-Fixpoint dedup_sorted (l : list name) : list name :=
-  match l with
-  | [] => []
-  | x :: r => match r with
-              | [] => [x]
-              | y :: _ => if N.eqb x y then dedup_sorted r else x :: dedup_sorted r
-              end
-  end.
+Definition dedup (l : list name) : list name :=
+  fold_right (fun x acc => if mem x acc then acc else x :: acc) [] l.
 
 (** std.objectFields / objectFieldsAll: the sorted set of names whose visibility is defined
     (and, for objectFields, not hidden) *)
 Definition fields_spec (cores : list (layer B)) (include_hidden : bool) : list name :=
-  filter (fun f => match vis_spec cores f (length cores) with
-                   | Some v => include_hidden || vis_visible v
-                   | None => false
-                   end)
-         (dedup_sorted (sort_names (all_names cores))).
+  sort_names
+    (filter (fun f => match vis_spec cores f (length cores) with
+                      | Some v => include_hidden || vis_visible v
+                      | None => false
+                      end)
+            (dedup (all_names cores))).
 
 (* ------------------------------------------------------------------ *)
 (** well-formed layer lists: field names of a layer are distinct (hash-map keys) and a
